@@ -79,6 +79,13 @@ func (g *ogen) text() onode {
 // value print: the bytes must be the escaper applied once to the printed form
 func (g *ogen) print() onode {
 	r := g.r
+	if r.Chance(6) {
+		// literals and actions that span lines: the lines after them keep their numbers
+		type gc struct{ src, val string }
+		cs := []gc{{"{{ `r<\nw` }}", "r<\nw"}, {"{{ `\n\n` }}", "\n\n"}, {"{{ \"a\" +\n\"b\" }}", "ab"}, {"{{ `x\ny\nz` | lower }}", "x\ny\nz"}, {"{{\n\n\"q\"\n}}", "q"}}
+		c := cs[r.Intn(len(cs))]
+		return onode{src: c.src, out: g.escape(c.val), failOff: -1}
+	}
 	k9 := r.Intn(9)
 	if g.named && g.flavor == "isset" && r.Chance(25) {
 		k9 = 8
